@@ -124,7 +124,22 @@ func init() {
 	})
 	R := "(*github.com/klauspost/compress/s2.Reader)."
 	reg(R+"Read", func(p *Path, _ *frame, a []Value) Value {
-		return p.callMethod(pData[Value](p, a[0], "snappy.Reader"), "Read", a[1])
+		buf, _ := a[1].([]Value)
+		if p.shortReads && len(buf) > 1 {
+			// io.Reader contract: a Read may return fewer bytes than asked for
+			// (the real decompressor does so at every block boundary)
+			switch p.chooseFree("shortread", 3) {
+			case 1:
+				buf = buf[:1]
+			case 2:
+				buf = buf[:len(buf)/2+len(buf)%2]
+			}
+		}
+		return p.callMethod(pData[Value](p, a[0], "snappy.Reader"), "Read", buf)
+	})
+	reg(verifPkg+".ShortReads", func(p *Path, _ *frame, a []Value) Value {
+		p.shortReads = p.branch(p.boolArg(a[0]))
+		return nil
 	})
 	reg(R+"Reset", func(p *Path, _ *frame, a []Value) Value {
 		a[0].(*NativeObj).Data = a[1]
